@@ -294,6 +294,23 @@ func (c *BackendConn) handle(raw []byte) {
 	}
 	hdr := frm.Header
 	stream := hdr.StreamId
+	if hdr.IsResponse {
+		// nothing a proxy sends to a node is a response: bytes meant for some client ended up here
+		w.Violate("backend-protocol", "response-frame-sent-to-a-backend", fmt.Sprintf("%s received a response frame from the proxy: %s stream %d (%s)", c, hdr.OpCode, stream, briefMsg(frm.Body.Message)))
+		c.Reset("response frame from the proxy")
+		return
+	}
+	if !c.Started {
+		switch frm.Body.Message.(type) {
+		case *message.Options, *message.Startup, *message.AuthResponse:
+		default:
+			// as a Cassandra node does: nothing but OPTIONS / STARTUP on a fresh connection. A request
+			// that arrives here was written to a connection it was never sent on.
+			w.Violate("backend-protocol", "request-on-a-backend-connection-before-startup", fmt.Sprintf("%s received %s (stream %d, token %q) before any STARTUP on that connection", c, hdr.OpCode, stream, tokenOf(frm.Body.Message)))
+			c.Reset("request before STARTUP")
+			return
+		}
+	}
 	if c.Started && hdr.Version != c.Version {
 		// as Cassandra does: every frame on a connection must use the version of its STARTUP
 		w.Stat("backend.version_mismatch")
